@@ -1269,7 +1269,7 @@ pub fn sweep(prop: &str, seed: u64, exhaustive_n: usize, random: usize, nmax: us
     for directed in [true, false] {
         for n in 0..=exhaustive_n {
             // all graphs with self-loops and up to 2 parallel edges for n <= 2, simple (+loops) for n = 3
-            let mult = if n <= 2 { 2 } else { 1 };
+            let mult = if n <= 2 { 3 } else { 1 };
             let space = code_space(n, directed, true, mult);
             let stride = if space > 5000 { (space / 3000).max(1) } else { 1 };
             let mut code = 0;
